@@ -9,7 +9,7 @@ def gen_migrate_ss(rng, big=False):
     return schedgen.gen_migrate(rng, big, self_suspend=True)
 
 
-FAMS = [schedgen.gen_lifecycle, schedgen.gen_join]
+FAMS = [schedgen.gen_lifecycle, schedgen.gen_join, schedgen.gen_directed]
 NAME_RE = r"^C12_"
 MANIFEST = {
     "text": "Theorems (Coq, every number of units/pools, every interleaving of the scheduler LTS whose labels are the ABT_VERIF hook "
